@@ -206,9 +206,12 @@ def _matrix(ctx, d, pgpy):
                 ctx.count('evaluations')
                 where = {'cell': cell, 'op': op, 'enforce': enforce}
                 actor = pub if op == 'encrypt' else k
+                # the caller's knob is an attribute of the key object the operation is called on; half of the cells also set it on the
+                # subkeys (both are things callers do), the other half leave the subkeys at their default
+                knob_everywhere = (len(cell['subs']) + OPS.index(op)) % 2 == 0
                 actor._require_usage_flags = enforce
                 for skx in actor.subkeys.values():
-                    skx._require_usage_flags = enforce
+                    skx._require_usage_flags = enforce if knob_everywhere else True
                 allowed, must_refuse = allowed_components(actor, op)
                 enc_for = None
                 if op == 'decrypt':
@@ -239,7 +242,12 @@ def _matrix(ctx, d, pgpy):
                     if not must_refuse:
                         ctx.fail('operation-refused-although-a-component-has-the-capability', dict(where, err=repr(res[1])[:200], allowed=[str(a.fingerprint)[-16:] for a in allowed]))
                     else:
-                        ctx.outcome('enforcement_off_but_refused')
+                        # enforcement is off: the operation goes ahead with the key it was called on, unless that key's algorithm cannot do it at all
+                        able = (mat_of(actor)['alg'] in (1, 18)) if op == 'encrypt' else (mat_of(actor)['alg'] != 18)
+                        if able:
+                            ctx.fail('refused-although-enforcement-is-off', dict(where, knob_on_subkeys_too=knob_everywhere, err=repr(res[1])[:160]))
+                        else:
+                            ctx.outcome('enforcement_off_but_algorithm_cannot')
                     continue
                 if must_refuse and not enforce:
                     allowed = [actor] + list(actor.subkeys.values())    # any component, but it must be named truthfully
